@@ -25,13 +25,14 @@ def build():
     u.take(M, "MainEventLoop", "main_event_loop")
     u.raw("main_event_loop", SPEC)
     # X.iter().filter(|h| [!]h.hook_type.is_disjoint(&SET)).map(|e| e.to_owned()).collect(): with the `!` the hooks that have a type in SET
-    touching = ("T-ITER", r"(?P<x>acc\s*\.get_hooks\(&cnf\)\?|hooks)\s*\.iter\(\)\s*\.filter\(\|h\| (?P<n>!?)h\.hook_type\.is_disjoint\(&(?P<s>\w+)\)\)\s*\.map\(\|e\| e\.(?:to_owned|clone)\(\)\)\s*\.collect\(\)",
-                lambda m: f"crate::shims::{'hooks_touching' if m.group('n') else 'hooks_not_touching'}(&{' '.join(m.group('x').split())}, &{m.group('s')})", 3)
+    FILTERS = {("!", "is_disjoint"): "hooks_touching", ("", "is_disjoint"): "hooks_not_touching", ("", "is_subset"): "hooks_within", ("!", "is_subset"): "hooks_not_within"}
+    touching = ("T-ITER", r"(?P<x>acc\s*\.get_hooks\(&cnf\)\?|hooks)\s*\.iter\(\)\s*\.filter\(\|h\| (?P<n>!?)h\.hook_type\.(?P<op>is_disjoint|is_subset)\(&(?P<s>\w+)\)\)\s*\.map\(\|e\| e\.(?:to_owned|clone)\(\)\)\s*\.collect\(\)",
+                lambda m: f"crate::shims::{FILTERS[(m.group('n'), m.group('op'))]}(&{' '.join(m.group('x').split())}, &{m.group('s')})", 3)
 
     def hookset_rw(m):
         elems = ", ".join(x.strip() for x in m.group("b").split(",") if x.strip())
         return ("{ let hs__ = crate::shims::hookset(vec![" + m.group("b") + "]); proof { assert(hset(hs__) =~= set![" + elems + "]); } hs__ }")
-    u.verify(M, "MainEventLoop::new", "main_event_loop", props=["C10", "C13", "C14", "C18", "C06", "C01", "C05", "C02"], fns={"new": FnSpec(ret="r", sig="""
+    u.verify(M, "MainEventLoop::new", "main_event_loop", props=["C10", "C13", "C14", "C18", "C06", "C01", "C05", "C02", "C03", "C07"], fns={"new": FnSpec(ret="r", sig="""
     ensures
         // every configured certificate has its run-time object under its own id: two certificates with the same id are an error,
         // and so is a certificate whose account is not configured
@@ -64,8 +65,8 @@ def build():
             ("after_stmt", "let cert = Certificate {", 1, """
             proof {
                 // what the run-time certificate is made of, one concern at a time
-                assert(cert_hooks_ok(cnf, *crt, cert)); //@C10.certificate_hooks_split_by_type
-                assert(fm_common_ok(cnf, cert.file_manager)); //@C13.file_manager_carries_the_configured_modes_and_owners
+                assert(cert_hooks_ok(cnf, *crt, cert)); //@C10.certificate_hooks_split_by_type,C07.certificate_hooks_split_by_type,C05.certificate_hooks_split_by_type
+                assert(fm_common_ok(cnf, cert.file_manager)); //@C13.file_manager_carries_the_configured_modes_and_owners,C02.file_manager_carries_the_configured_extensions,C03.file_manager_carries_the_configured_extensions
                 assert(cert_renew_ok(cnf, *crt, cert)); //@C06.the_certificate_is_scheduled_with_the_configured_renew_delay_and_early_renew,C14.values_come_from_the_most_specific_wins_getters
                 assert(cert_names_ok(cnf, *crt, root_certs@, cert)); //@C14.values_come_from_the_most_specific_wins_getters
                 assert(cert_env_ok(*crt, cert)); //@C10.certificate_environment_is_the_configured_one
